@@ -625,6 +625,28 @@ func ruleR6_4(w *World, r *Report) {
 							}
 						}
 					case *ssa.Return, *ssa.Panic:
+						// guard style (`if !s.Certified { return }` ... emit ... return): leaving is no difference when the
+						// uncertified branch does nothing but return the same values
+						if ret, isRet := ins.(*ssa.Return); isRet {
+							other := reg.If.Block().Succs[1]
+							if len(other.Instrs) == 1 {
+								if r2, isR2 := other.Instrs[0].(*ssa.Return); isR2 && len(r2.Results) == len(ret.Results) {
+									same := true
+									for i := range ret.Results {
+										if ret.Results[i] != r2.Results[i] {
+											k1, c1 := ret.Results[i].(*ssa.Const)
+											k2, c2 := r2.Results[i].(*ssa.Const)
+											if !c1 || !c2 || k1.String() != k2.String() {
+												same = false
+											}
+										}
+									}
+									if same {
+										continue
+									}
+								}
+							}
+						}
 						bad = append(bad, "leaves the function at "+w.InstrPos(ins)+" (the rest of the function is skipped only when certifying)")
 					}
 				}
